@@ -1,17 +1,20 @@
 package rt
 
 import (
+	"fmt"
 	"math"
 	"sort"
+	"strconv"
 	"time"
 )
 
 // String pools: token 0 is the empty string and byte-wise order = token order (checked by init).
 var (
 	TripIDs   = []string{"", "10_t", "9_t", "T3", "t4", "t4x"}
-	RouteIDs  = []string{"", "R1", "r2", "r3"}
-	StopIDs   = []string{"", "S1", "s2", "s3"}
-	VehIDs    = []string{"", "V1", "v2", "v3", "v4", "v5"}
+	RouteIDs  = []string{"", "M", "R1", "r2", "r3"}
+	StopIDs   = []string{"", "L11N", "M11", "M11N", "M11NN", "M11S", "M11X", "M12N", "M12S", "M13N", "M13S", "M14N", "M14S", "M16N", "M16S", "M18N", "M18S", "M19N", "M19S", "S1", "s2", "s3"}
+	// vehicle ids; the NYCT train ids are vehicle ids too (an assigned trip is linked to the vehicle named by its train id)
+	VehIDs    = []string{"", "01 1234 A/B", "0L 0555+ 8AV/RPY", "V1", "v2", "v3", "v4", "v5", "x"}
 	Labels    = []string{"", "L1", "l2"}
 	Plates    = []string{"", "P1", "p2"}
 	Agencies  = []string{"", "A1", "a2"}
@@ -19,13 +22,12 @@ var (
 	Texts     = []string{"", "Délai, \"ligne\" 7\nsuite", "plain text", "zzz"}
 	Languages = []string{"", "en", "fr"}
 	Tracks    = []string{"", "1", "A2", "b3"}
-	TrainIDs  = []string{"", "01 1234 A/B", "0L 0555+ 8AV/RPY", "x"}
 )
 
 // Numeric pools (token = index).
 var (
 	Timestamps = []uint64{0, 1, 86399, 1700000000, 2147483647, 2147483648, 4294967301, 253402300799}
-	EventTimes = []int64{0, 1, 1700000123, 2147483648, 253402300799, 1699999999}
+	EventTimes = []int64{0, 1, 1700000123, 2147483648, 253402300799, 1699999999, 1700000000, 1700000001}
 	Delays     = []int32{math.MinInt32, -1, 0, 1, 90, math.MaxInt32}
 	Uncerts    = []int32{0, 1, -1, 30, math.MaxInt32}
 	U32s       = []uint32{0, 1, 100, math.MaxUint32, 7}
@@ -36,7 +38,7 @@ var (
 )
 
 func init() {
-	for _, p := range [][]string{TripIDs, RouteIDs, StopIDs, VehIDs, Labels, Plates, Agencies, AlertIDs, Texts, Languages, Tracks, TrainIDs} {
+	for _, p := range [][]string{TripIDs, RouteIDs, StopIDs, VehIDs, Labels, Plates, Agencies, AlertIDs, Texts, Languages, Tracks} {
 		if p[0] != "" || !sort.StringsAreSorted(p) {
 			panic("harness: string pool is not sorted with the empty string first")
 		}
@@ -79,4 +81,37 @@ func Zone(name string) (opt *time.Location, effective *time.Location) {
 		}
 		return l, l
 	}
+}
+
+// TrainIDs are drawn from the vehicle id pool.
+var TrainIDs = VehIDs
+
+// NYCT-format trip ids are the tokens >= 1,000,000: token = variant*1,000,000 + origin time (hundredths of a
+// minute, 000000-999999). Variants 1 and 2 match the NYCT trip id pattern, variant 3 does not.
+const nyctBase = 1000000
+
+var nyctSuffix = map[int]string{1: "_1..N03R", 2: "_GS.S", 3: "_1..X03R"}
+
+func tripIDStr(t int) string {
+	if t >= nyctBase {
+		suf, ok := nyctSuffix[t/nyctBase]
+		if !ok {
+			panic("harness: bad NYCT trip id token")
+		}
+		return fmt.Sprintf("%06d", t%nyctBase) + suf
+	}
+	return tokStr(TripIDs, t)
+}
+
+func tripIDTok(s string) int {
+	if len(s) > 6 {
+		for v, suf := range nyctSuffix {
+			if s[6:] == suf {
+				if n, err := strconv.Atoi(s[:6]); err == nil && n >= 0 {
+					return v*nyctBase + n
+				}
+			}
+		}
+	}
+	return strTok(TripIDs, s)
 }
